@@ -10,6 +10,7 @@ import (
 	iocore "io"
 	"maps"
 	"math/big"
+	"slices"
 	"sync"
 
 	"github.com/nspcc-dev/neo-go/pkg/config/limits"
@@ -242,7 +243,8 @@ func (dao *Simple) GetTokenTransferLog(acc util.Uint160, newestTimestamp uint64,
 		}
 		return nil, err
 	}
-	return &state.TokenTransferLog{Raw: value}, nil
+	// The log is appended to in place, while the value belongs to the store.
+	return &state.TokenTransferLog{Raw: slices.Clone(value)}, nil
 }
 
 // PutTokenTransferLog saves the given transfer log in the cache.
